@@ -16,7 +16,11 @@ Set up your own scratch worktree of the repository (never edit /repo itself):
     git -C /repo worktree add --detach {wt} HEAD
 Run code against it with:   cd {wt} && PYTHONPATH={wt}/src /venv/bin/python your_script.py
 Run the library's tests with: cd {wt} && PYTHONPATH={wt}/src timeout 1500 /venv/bin/python -m pytest -q -p no:cacheprovider --timeout=900 tests/<file>.py
-(full suite: same command without a file; it takes a few minutes; 7 tests in tests/test_lm.py fail on the pristine tree already — ignore those.)
+(The machine is shared and busy: export OMP_NUM_THREADS=2 before running anything; run the test FILES that cover the code you
+change — say exactly which — rather than the whole suite, which takes hours here. tests/test_metadata.py::test_version fails under
+PYTHONPATH on the pristine tree too; ignore it.)
+NEVER use `git stash` in the worktree (the stash is shared by all worktrees of /repo and other engineers are working in
+parallel): toggle with `git diff > patch.diff`, `git checkout -- .`, `git apply patch.diff`.
 If you call command-line entry points of the library from a script, always pass --num-workers 0 and put your code under
 `if __name__ == "__main__":` (a spawn pool with an unguarded main hangs).
 
@@ -39,6 +43,7 @@ dropped branch, a wrong default, stale state, a changed tie-break, a wrong clamp
      two sites that each look fine alone) — NOT something any ordinary call would expose at once.
 
 Make the {{N}} changes target different clauses/mechanisms of the property where possible. Keep each patch small (a few lines).
+@AVOID@
 
 For each change k = 1..{{N}} write, under {d}/out/<k>/ :
   - patch.diff   : `git -C {wt} diff` of that change alone against the pristine tree (apply-able with `git apply`)
@@ -52,5 +57,11 @@ Restore the worktree to pristine between changes (`git -C {wt} checkout -- .`). 
 (keep the {d}/out directory). Final answer: a short list of the changes (one line each: what, where, what it needs to manifest).
 """
 n = sys.argv[3] if len(sys.argv) > 3 else "2"
+avoid = ""
+prev = sorted((V / "seeded").glob(f"{pid}-*"))
+if prev:
+    avoid = "Earlier engineers already produced the following changes for this property — do something DIFFERENT (other functions, other clauses, other trigger conditions):\n" + "\n".join(
+        "  - " + (json.load(open(d / "meta.json")).get("title") or json.load(open(d / "meta.json")).get("clause_broken") or d.name)[:200] for d in prev)
+txt = txt.replace("@AVOID@", avoid)
 (d / "PROMPT.txt").write_text(txt.replace("{N}", n))
 print(d / "PROMPT.txt")
